@@ -403,7 +403,7 @@ def r17_10_source_text_untouched(ctx, rid='R17.10'):
             r.fail(f.key('source-rebound:%s' % norm(getattr(n, 'value', n))[:40]), f.loc(n), 'the source is replaced by %s before it is parsed: '
                    'line and column numbers in error messages refer to the modified text, not to the document the user wrote'
                    % norm(getattr(n, 'value', n))[:60])
-    loads = [c for fi2, c in S.yaml_calls(P, 'load') if fi2.key == key]
+    loads = [c for fi2, c in S.yaml_calls(P, 'load') if fi2 is f.fi or fi2.key == key]
     wvars = {norm(it.optional_vars) for w in f.walk() if isinstance(w, ast.With) for it in w.items if it.optional_vars is not None}
     for c in loads:
         a = c.args[0] if c.args else None
